@@ -144,7 +144,7 @@ def execute(run):
     binary = build_driver()
     info = driver_info(binary)
     extra = {'circles': info['circles']}
-    n, k = (900, 16) if run.tier == 'quick' else (9000, 32)
+    n, k = (2500, 16) if run.tier == 'quick' else (9000, 32)
     run.run_shards(binary, [{'name': 'canvas-%d' % i, 'n': n} for i in range(k)], extra=extra)
 
 
